@@ -53,6 +53,9 @@ InitRunner(p) ==
    node   |-> p.nodes[1].title,
    entry  |-> InitStore(p),         \* variables as of the last node entry
    ended  |-> FALSE,
+   \* how a line condition on a PLAIN line is read ("show": ignored, the line is presented; "skip": a
+   \* false condition skips the line).  The properties leave it open; the trace specification tries both.
+   lcmode |-> "show",
    jout   |-> [t \in Titles(p) |-> 0],   \* ghost: times each node was left through a jump
    \* ghost: the behavioural projection the runner had at its last node entry
    eproj  |-> EntryProj(p, p.nodes[1].title, InitStore(p), [t \in Titles(p) |-> 0]),
@@ -233,8 +236,13 @@ Step(p, s) ==
                 s1 == [s EXCEPT !.stack[Len(s.stack)].pc = @ + 1, !.wait = <<>>]
                 env == Env(p, s1) IN
          CASE stmt.k = "line" ->
-                LET t == Render(stmt.text, env) IN
-                IF t.st = "oos" THEN OutOfScope(s1)
+                LET t == Render(stmt.text, env)
+                    skipIt == IF s1.lcmode = "skip" /\ "cond" \in DOMAIN stmt
+                              THEN LET cv == EvalValue(stmt.cond, env) IN cv.st = "ok" /\ IsBool(cv.v) /\ ~cv.v.b
+                              ELSE FALSE
+                IN
+                IF skipIt THEN s1
+                ELSE IF t.st = "oos" THEN OutOfScope(s1)
                 ELSE IF t.st = "err" THEN Fault(s1, t.log)
                 ELSE Yield(Log(s1, t.log),
                            [k |-> "line", node |-> s1.node, text |-> t.text, tags |-> stmt.tags])
